@@ -205,7 +205,7 @@ func (torrent *Torrent) MetadataComplete() error {
 	if len(info.Pieces)%20 != 0 {
 		return errors.New("pieces has an odd size")
 	}
-	if info.PieceLength%config.ChunkSize != 0 {
+	if info.PieceLength == 0 || info.PieceLength%config.ChunkSize != 0 {
 		return errors.New("odd sized piece")
 	}
 	hashes := make([]hash.Hash, 0, len(info.Pieces)/20)
